@@ -75,6 +75,9 @@ def impl(c):
         out["moves"] = common.div_to_list(G, e)
     out["series"] = [common.div_to_list(G, L.apply(d, CFiringScript(g, {names[i]: x for i, x in enumerate(sv)}))) for sv in c.get("series", [])]
     out["pure2"] = before == (common.div_to_list(G, d), d.get_total_degree(), dict(sc.script))
+    # history on ONE script object: it has been read and applied above; now it is updated / set and applied again (and read back)
+    i2 = c["q"]; k2 = 1 + (c["seed"] % 5); sc.update_firings(names[i2], k2); out["again1"] = common.div_to_list(G, L.apply(d, sc))
+    sc.set_firings(names[(i2 + 1) % n], -k2); sc.update_firings(names[i2], -2 * k2); out["again2"] = common.div_to_list(G, L.apply(d, sc)); out["again_script"] = [dict(sc.script)[x] for x in names]
     # serializers accept the result
     ser = []
     try:
@@ -93,6 +96,11 @@ def model_lines(c):
     for i, x in enumerate(c["s"]): toks += [0, i, x]      # initial script = n set operations
     for o in c["sops"]: toks += o
     return [["lapm"] + g, ["lapred"] + g + [c["q"]], toks]
+def _again_scripts(c, script):
+    """the script after update_firings(q, k) and after set_firings(q+1, -k); update_firings(q, -2k) (k as in impl)"""
+    n = c["G"]["n"]; i2 = c["q"]; k2 = 1 + (c["seed"] % 5); s1 = list(script); s1[i2] += k2; s2 = list(s1); s2[(i2 + 1) % n] = -k2; s2[i2] += -2 * k2 if (i2 + 1) % n != i2 else 0
+    if (i2 + 1) % n == i2: s2[i2] = -k2 - 2 * k2
+    return [s1, s2]
 def judge(c, r, mo):
     if "exc" in r: return [{"what": "implementation raised %s: %s" % (r["exc"], r.get("msg"))}]
     o = r["ok"]; n = c["G"]["n"]; out = []
@@ -119,6 +127,7 @@ def model_lines(c, r):
         ls.append(["lapapply"] + g + common.enc_list(c["D"]) + common.enc_list(sc))
         ls.append(["scripted"] + g + common.enc_list(c["D"]) + common.enc_list(sc if max(abs(x) for x in sc) <= 12 else [0] * n) + common.enc_list(c["order"]))
         for sv in c.get("series", []): ls.append(["lapapply"] + g + common.enc_list(c["D"]) + common.enc_list(sv))
+        for sv in _again_scripts(c, sc): ls.append(["lapapply"] + g + common.enc_list(c["D"]) + common.enc_list(sv))
     return ls
 _j1 = judge
 def judge(c, r, mo):
@@ -135,6 +144,12 @@ def judge(c, r, mo):
         E = [int(x) for x in mo[5 + k]]
         if o["series"][k] != E: out.append({"what": "apply #%d through the same Laplacian object with s=%s returned %s, exact D - L*s is %s" % (k + 2, sv, o["series"][k], E)}); break
     if not o.get("pure2", True): out.append({"what": "a later apply modified the divisor or the first script"})
+    if "again1" in o:
+        base = 5 + len(c.get("series", [])); s1, s2 = _again_scripts(c, o["script"])
+        for key, sv, line in (("again1", s1, mo[base]), ("again2", s2, mo[base + 1])):
+            E = [int(x) for x in line]
+            if o[key] != E: out.append({"what": "the same script object updated to %s and applied again returned %s, exact D - L*s is %s" % (sv, o[key], E)}); break
+        if o["again_script"] != s2: out.append({"what": "the script property reads %s after the updates, the script is %s" % (o["again_script"], s2)})
     return out
 def oracle(c, r):
     if r is None or "exc" in r: return {"violates": True, "why": "raised"}
@@ -147,6 +162,11 @@ def oracle(c, r):
     if not o["pure"]: why.append("arguments modified")
     if o["add_l"] != o["add_r"]: why.append("not additive")
     if o["ser"] != ["dict", "json", "txt"]: why.append("serializer: %s" % o["ser"])
+    if "again1" in o:
+        for key, sv in zip(("again1", "again2"), _again_scripts(c, o["script"])):
+            ex = [c["D"][v] - sum(L[v][w] * sv[w] for w in range(n)) for v in range(n)]
+            if o[key] != ex: why.append("one script object, updated to %s and applied again: %s, D - L*s = %s" % (sv, o[key], ex)); break
+        if o["again_script"] != _again_scripts(c, o["script"])[1]: why.append("script property stale: %s" % o["again_script"])
     if "sres" in o:      # the script session, recomputed from the definition: set = overwrite, update = add, unknown vertex = refused without effect
         cur = list(c["s"]); exp = []
         for op in c["sops"]:
